@@ -45,7 +45,7 @@ pub struct Hist {
 pub fn hist() -> impl Strategy<Value = Hist> {
     let spec = prop_oneof![
         3 => c14::pair().prop_map(|p| ProgSpec::Gen(Box::new(p))),
-        6 => (0u8..11, 0u8..4, any::<u16>()).prop_map(|(f, r, v)| ProgSpec::Shared(f, r, v)),
+        6 => (0u8..13, 0u8..4, any::<u16>()).prop_map(|(f, r, v)| ProgSpec::Shared(f, r, v)),
         1 => c11::raw_tree().prop_map(|mut t| { t.missing = None; t.main_symlink = false; ProgSpec::Tree(t) }),
     ];
     let op = prop_oneof![
@@ -65,7 +65,7 @@ pub enum Prog {
 /// The same shared name gets a different meaning in every role.
 pub fn shared_program(name: &str, family: u8, role: u8, v: u16) -> String {
     let v = v as u32 % 60000;
-    match (family % 11, role % 4) {
+    match (family % 13, role % 4) {
         (0, 0) => format!(".equ {} = {}\n.dw {}", name, v, name),
         (0, 1) => format!(".equ {} = {}\nldi r16, low({})", name.to_uppercase(), v + 1, name),
         (0, _) => format!(".dw {}", name),
@@ -111,6 +111,20 @@ pub fn shared_program(name: &str, family: u8, role: u8, v: u16) -> String {
             let d = NEAR[(v as usize + r as usize * 4) % NEAR.len()];
             format!(".device {}\njmp 0\nmul r16, r17\n.dseg\n{}: .byte 1\n.cseg\n.dw {}\n.org 600\nnop", d, name, name)
         }
+        // several entries of one table that answer the same question (names of one register, names of
+        // one value, labels of one address, flags): whatever is reported or chosen, it is chosen the same
+        // way every time (tables are hash maps whose order differs between processes and instances)
+        (11, 0) => (0..(3 + v % 5)).map(|i| format!(".def {}_{} = r{}\n", name, i, 16 + v % 3)).collect::<String>() + &format!("ldi {}_0, 1\nldi {}_2, 2\n.undef {}_1\nmov {}_0, {}_2\n.def {}_9 = r{}\nldi {}_9, 3", name, name, name, name, name, name, 16 + v % 3, name),
+        (11, 1) => (0..(3 + v % 5)).map(|i| format!(".equ {}_{} = {}\n{}_l{}:\n", name, i, v, name, i)).collect::<String>() + &format!("nop\n.dw {}_0, {}_2, {}_l1, {}_l2\n.equ {}_1 = 3", name, name, name, name, name),
+        (11, 2) => (0..(3 + v % 5)).map(|i| format!(".set {}_{} = {}\n.define {}_f{}\n", name, i, v, name, i)).collect::<String>() + &format!(".ifdef {}_f1\n.dw {}_1\n.endif\n.set {}_1 = {}_2 + 1\n.dw {}_1\n.def {}_2 = r1", name, name, name, name, name, name),
+        (11, _) => (0..(3 + v % 5)).map(|i| format!(".macro {}_{}\n.dw {}\n.message \"{} {}\"\n.endm\n", name, i, i, name, i)).collect::<String>() + &format!("{}_0\n{}_2\n{}_1\n{}_7", name, name, name, name),
+        // the special name `pc` where operands are evaluated while the text is read (and where they are
+        // evaluated later): a build that has run before in the same thread has left its last address
+        // somewhere — whatever `pc` means in such a place, it means the same after any history
+        (12, 0) => (0..(2 + v % 40)).map(|_| "nop\n").collect::<String>() + &format!("{}: rjmp pc\n.dw pc, {}\n.eseg\n.db 1, 2, 3\n.dw pc", name, name),
+        (12, 1) => format!(".org pc + {}\n{}: nop\n.dw {}", 1 + v % 50, name, name),
+        (12, 2) => format!("nop\n.if pc > {}\n.dw 1\n.else\n.dw 2\n.endif\n.set {} = pc\n.dw {}\n.equ {}_e = pc + 1\n.dw {}_e", v % 3, name, name, name, name),
+        (12, _) => format!(".macro {}\n.org pc + 4\n.dw pc\n.endm\n.dseg\n.byte pc + {}\n{}_d: .byte 1\n.cseg\n{}\n.dw {}_d\n.if pc\n.dw 7\n.endif", name, v % 9, name, name, name),
         (_, _) => "nop".to_string(),
     }
 }
